@@ -1026,6 +1026,14 @@ def list_method(interp, base, name, args, kwargs):
             raise py_exc(interp, e)
     if name == 'copy':
         return ListV(base.items)
+    if name == 'reverse' and not args:
+        base.items.reverse()
+        return K(None)
+    if name == 'clear' and not args:
+        base.items[:] = []
+        return K(None)
+    if name == 'count' and len(args) == 1:
+        return K(sum(1 for x in base.items if same(x, args[0])))
     if name == 'index' and len(args) == 1:
         for i, x in enumerate(base.items):
             if same(x, args[0]):
